@@ -695,6 +695,19 @@ def replay_model_witnesses(ctx, impl):
         ("ex_negative_limit", (False, False),
          [["size", 0, 20, -1], ["msg", None, 0, 20, ["int", 1], "plain", 0]],
          dict(files=[], recorded=0, declared=0, bufs=[-1])),
+    ] + [
+        ("ex_fault_bounded/" + v, (True, True),
+         [["size", 0, 30, 2], ["fault", 2, v]] + [["msg", None, 0, 30, ["int", 1], "plain", i] for i in range(5)],
+         dict(files=[], recorded=0, declared=10, bufs=[3, 4, -1, -2, -3, -4, -5])) for v in ("rmdir", "notadir", "factory")
+    ] + [
+        ("ex_fault_qualifier_bounded", (True, False),
+         [["size", 0, 35, 1], ["fault", 1, ""]] + [["msg", None, 0, 35, ["int", 1], "plain", i] for i in range(3)],
+         dict(files=[], recorded=0, declared=0, bufs=[2, -1, -2, -3])),
+        # the seeded scenario at scale: a healthy incident, then the directory disappears and 60 more triggers arrive
+        ("fault_after_healthy_incident", (True, True),
+         [["size", 0, 30, 5], ["msg", None, 0, 30, ["int", 1], "plain", 0], ["timer"], ["fault", 2, "rmdir"]]
+         + [["msg", None, 0, 30, ["int", 1], "plain", i] for i in range(1, 61)],
+         dict(files=[[0, 0]], recorded=1, declared=121, bufs=[56, 57, 58, 59, 60] + [-i - 1 for i in range(1, 61)])),
     ]:
         t = run_trace(ctx, impl, cfg, ops, name="witness", judge=True)
         fin = t["final"]
